@@ -25,6 +25,8 @@ Definition op_of (v : variant) (p : pc) : nat * nat * nat :=
   | Done => (0, 4, 0)
   end.
 
+(* per thread: pending operation (kind, object, timed), enabled, the locals batch_index / result / exception as the
+   thread's frame holds them (0 = not assigned in this call), number of finished calls and their outcomes *)
 Definition enc_outcome (o : outcome) : list nat :=
   match o with
   | RetOk k idx => [1; k; idx]
@@ -37,7 +39,7 @@ Fixpoint enc_threads (v : variant) (s : shared) (t : nat) (l : list thread) : li
   | [] => []
   | th :: r =>
       let '(k, o, tm) := op_of v (t_pc th) in
-      [k; o; tm; b2n (enabled_th v s t th); length (t_outs th)]
+      [k; o; tm; b2n (enabled_th v s t th); t_bidx th; enc_opt (t_res th); enc_opt (t_exc th); length (t_outs th)]
         ++ flat_map (fun po => enc_outcome (snd po)) (t_outs th)
         ++ enc_threads v s (S t) r
   end.
